@@ -1,6 +1,8 @@
 package dhcp4_spoofer
 
 import (
+	"bytes"
+	"crypto/sha256"
 	"fmt"
 	"io/ioutil"
 	"net"
@@ -141,6 +143,9 @@ func (h *dhcpSubnet) appendRouteOptions(ip netip.Addr, mask net.IPMask, routeTo 
 	h.options[packet.DHCP4OptionClasslessRouteFormat] = buf
 }
 
+// leaseSumKey starts the first line of a lease file: the yaml key holding the checksum of the rest of the file
+const leaseSumKey = "checksum: "
+
 func (handler *Handler) loadConfig(fname string) (net1 *dhcpSubnet, net2 *dhcpSubnet, t map[string]*Lease, err error) {
 	if fname == "" {
 		return
@@ -158,6 +163,16 @@ func (handler *Handler) loadByteArray(source []byte) (net1 *dhcpSubnet, net2 *dh
 		Net2   *SubnetConfig
 		Leases []Lease
 	}{}
+
+	// integrity: saveConfig writes a first line "checksum: <sha256 of the rest>".
+	// A truncated or corrupted file is rejected (the caller resets the table);
+	// files without that line (older versions, edited by hand) load as before.
+	if bytes.HasPrefix(source, []byte(leaseSumKey)) {
+		n := bytes.IndexByte(source, '\n')
+		if n < 0 || string(source[len(leaseSumKey):n]) != fmt.Sprintf("%x", sha256.Sum256(source[n+1:])) {
+			return nil, nil, nil, fmt.Errorf("lease file checksum mismatch")
+		}
+	}
 
 	// err = yaml.UnmarshalStrict(source, &table)
 	err = yaml.Unmarshal(source, &table)
@@ -265,6 +280,8 @@ func (h *Handler) saveConfig(fname string) (err error) {
 		fmt.Printf("error cannot marshall dhcp file: %s error %s", fname, err)
 		return err
 	}
+
+	stream = append([]byte(fmt.Sprintf("%s%x\n", leaseSumKey, sha256.Sum256(stream))), stream...)
 
 	// write a temporary file and rename it over the lease file, so that a crash
 	// during the write cannot leave a truncated lease file behind
